@@ -90,17 +90,41 @@ func cacheLockRule(r *Run, rule string) {
 			mu = v
 		}
 	}
+	// ... or, when the cache is the field of a struct, the mutex field beside it
+	if _, _, holderT := w.cacheVars(); holderT != nil {
+		mu = nil
+		st := holderT.Underlying().(*types.Struct)
+		for i := 0; i < st.NumFields(); i++ {
+			ft := st.Field(i).Type()
+			if pt, isPtr := ft.(*types.Pointer); isPtr {
+				ft = pt.Elem()
+			}
+			if namedIs(ft, "sync", "Mutex") || namedIs(ft, "sync", "RWMutex") {
+				mu = st.Field(i)
+			}
+		}
+	}
 	if mu == nil {
 		r.Lost(rule, "package-level mutex guarding the cache")
 		return
 	}
-	isMu := func(e ast.Expr) bool { return objOf(info, e) == mu }
+	isMu := func(e ast.Expr) bool { return varOf(info, e) == types.Object(mu) }
 	for _, p := range w.All {
 		for _, f := range w.Funcs(relOf(w, p.PkgPath)) {
 			pinfo := f.Pkg.TypesInfo
+			// (the field named in the composite literal that builds the cache object is its initialisation, not an access)
+			litKeys := map[*ast.Ident]bool{}
+			ast.Inspect(f.Decl.Body, func(n ast.Node) bool {
+				if kv, ok := n.(*ast.KeyValueExpr); ok {
+					if id, ok := kv.Key.(*ast.Ident); ok && pinfo.Uses[id] == types.Object(cv) {
+						litKeys[id] = true
+					}
+				}
+				return true
+			})
 			touches := false
 			ast.Inspect(f.Decl.Body, func(n ast.Node) bool {
-				if id, ok := n.(*ast.Ident); ok && pinfo.Uses[id] == cv {
+				if id, ok := n.(*ast.Ident); ok && pinfo.Uses[id] == cv && !litKeys[id] {
 					touches = true
 				}
 				return true
@@ -142,7 +166,7 @@ func cacheLockRule(r *Run, rule string) {
 					if _, ok := m.(*ast.FuncLit); ok {
 						return false
 					}
-					if id, ok := m.(*ast.Ident); ok && pinfo.Uses[id] == cv {
+					if id, ok := m.(*ast.Ident); ok && pinfo.Uses[id] == cv && !litKeys[id] {
 						con := "cache access in " + short(w.Fset, n)
 						if st == lkUnheld {
 							r.Bad(rule, f.Name(), con, w.Pos(id.Pos()), "the template cache is accessed without holding its mutex on some path")
@@ -167,7 +191,7 @@ func cacheLockRule(r *Run, rule string) {
 
 // isMuFor: the expression denotes the package-level mutex, in any package's type information.
 func isMuFor(w *World, mu *types.Var) func(info *types.Info, e ast.Expr) bool {
-	return func(info *types.Info, e ast.Expr) bool { return objOf(info, e) == types.Object(mu) }
+	return func(info *types.Info, e ast.Expr) bool { return varOf(info, e) == types.Object(mu) }
 }
 
 // calledOnlyWithLockHeld: f is an unexported function that is never used as a value and every call of it
